@@ -204,14 +204,14 @@ def unit_excel_workbooks():
                              describe=lambda c: {"sheets": c[0], "requested_sheet": c[2]}, function="rowio.excel_rows + _excel_cell_value", unit="C16.workbooks", props=["C16"]))
             # the Sheet property through the validating reader
             def sheet_cases():
-                for k in (None, 1, 2, 3): yield k
+                for k in (None, 1, 2, 3, 9, 10, 11, 12): yield k
             def sheet_check(k):
                 from cutplace import interface, validio
-                n[0] += 1; path = os.path.join(tmp, "s%d.xlsx" % n[0]); build(path, [[[("s", "sheet%d" % i), ("s", "x")]] for i in (1, 2, 3)])
+                n[0] += 1; path = os.path.join(tmp, "s%d.xlsx" % n[0]); build(path, [[[("s", "sheet%d" % i), ("s", "x")]] for i in range(1, 13)])
                 cid = interface.Cid(); cid.read("cid", [["d", "format", "excel"]] + ([["d", "sheet", str(k)]] if k else []) + [["f", "a"], ["f", "b"]])
                 got = list(validio.rows(cid, path)); want = [["sheet%d" % (k or 1), "x"]]
                 return None if got == want else {"expected": want, "observed": got}
-            res.append(sweep("C16/workbooks/the Sheet property selects the sheet the validating reader reads", sheet_cases(), sheet_check, "audit", "3-sheet workbook x Sheet property {unset, 1, 2, 3} through validio.rows",
+            res.append(sweep("C16/workbooks/the Sheet property selects the sheet the validating reader reads", sheet_cases(), sheet_check, "audit", "12-sheet workbook x Sheet property {unset, 1, 2, 3, 9, 10, 11, 12} through validio.rows",
                              describe=lambda k: {"sheet_property": k}, function="validio.Reader._raw_rows + rowio.excel_rows", unit="C16.workbooks", props=["C16"]))
             # xlsx row writer round trip
             def rt_cases():
